@@ -133,6 +133,12 @@ where
                 .context("Failed to write to temp file")?;
         }
     }
+    // The file is written in the background, make sure all of it has reached the
+    // temp file before the caller reads it back.
+    temp_file
+        .flush()
+        .await
+        .context("Failed to write to temp file")?;
     Ok((
         source_hasher.finalize().to_vec(),
         archive_chunks,
